@@ -34,6 +34,7 @@ EXPLANATION = (
     "turn exactly once, and the FKM-nonlinear open-hysteresis counter moves in lock-step with the residual list across "
     "the caller/callee boundary. Not decided: that find_turns yields the textbook reversal sequence; multiset equality "
     "of three- and four-point results on all signals.")
+EXPLANATION += (' R-C02-4: find_turns decides reversal and plateau only by exact sign tests of first differences (D*D < 0, D == 0): no tolerance, no rounding, no sign-dependent selection. R-C02-5: the three-point front indices are np.argmax / np.argmin (first occurrence) of the same carried residual and feed the matching guards.')
 ASSUMPTIONS = [
     "the compiled rainflow_ext kernels are built from extension.pyx by setup.py",
     "fabs/np.abs are the real absolute value; C doubles compare like reals (no NaN after find_turns cleaned them)",
